@@ -99,7 +99,12 @@ def mutations(subject, rng):
     with_modes = [i for i, ins in enumerate(prog) if ins.get("modes")]
 
     def mk(rule, program=None, **kw):
-        sc = {"check": "c13", "kind": "refusal", "rule": rule, "subject": dict(subject, program=program if program is not None else prog)}
+        sub = dict(subject, program=program if program is not None else prog)
+        if sub.get("infer_d") and not spec.can_infer_d(sub):
+            # the mutation removed the only explicit mention of mode d-1: with an inferred d the mutated program
+            # would describe a smaller system (and might be valid there); declare d instead
+            sub.pop("infer_d")
+        sc = {"check": "c13", "kind": "refusal", "rule": rule, "subject": sub}
         sc.update(kw)
         out.append((rule, sc))
 
